@@ -1,0 +1,17 @@
+//go:build verif
+
+package factory
+
+import (
+	"context"
+
+	"github.com/projecteru2/core/engine"
+	"github.com/projecteru2/core/types"
+)
+
+// VerifRegisterEngine registers an engine constructor for endpoints starting
+// with prefix (verification harness only; build tag `verif`).  Must be called
+// before the first engine lookup; it is not synchronised with lookups.
+func VerifRegisterEngine(prefix string, f func(ctx context.Context, config types.Config, nodename, endpoint, ca, cert, key string) (engine.API, error)) {
+	engines[prefix] = f
+}
